@@ -2238,6 +2238,17 @@ class Engine:
         v = self.eval(node.args[0], st)
         t = node.args[1]
         names = [t.id] if isinstance(t, ast.Name) else [e.id for e in t.elts] if isinstance(t, ast.Tuple) else None
+        if isinstance(t, ast.BinOp):  # isinstance(x, A | B | ...)
+            names, todo = [], [t]
+            while todo:
+                u = todo.pop()
+                if isinstance(u, ast.BinOp) and isinstance(u.op, ast.BitOr):
+                    todo += [u.right, u.left]
+                elif isinstance(u, ast.Name):
+                    names.append(u.id)
+                else:
+                    names = None
+                    break
         if names is None:
             raise Unsupported("isinstance with computed type", node)
         res = []
